@@ -30,8 +30,10 @@ def prepare(ctx):
 
 
 # theory files the tie files of coq/ties need compiled (they are not in the cone of Props/Cxx.v)
-TIE_THEORIES = {"c03": ["GConfGenProofs"], "c16": ["GConfGenProofs", "TmplGenPrims", "TmplReProofs", "TmplProofs"],
-                "c10": ["GConfCacheGenPrims"]}
+TIE_THEORIES = {"c03": ["GConfGenProofs", "GConfLoopProofs", "GConfLoadModel", "GConfTieTactics"],
+                "c16": ["GConfGenProofs", "GConfLoopProofs", "GConfLoadModel", "GConfTieTactics", "TmplGenPrims", "TmplReProofs",
+                        "TmplProofs"],
+                "c10": ["GConfCacheGenPrims", "GConfConvModel", "GConfGenProofs", "GConfLoopProofs", "GConfTieTactics"]}
 
 
 def build(ctx, cmd, race=False, judge="GConfJudge"):
@@ -102,7 +104,7 @@ def replay_inputs(ctx, binp, inputs, tag, extra_args=()):
 
 
 def minimise(ctx, binp, header, case_type, judge, inp, code, variants, size, rounds=12, cap=120,
-             tag="min", keep=None, budget_s=30.0):
+             tag="min", keep=None, budget_s=30.0, replay_args=()):
     """greedy delta debugging: `variants(inp)` lists one-step smaller inputs; each round replays
     them (smallest first, in chunks of `cap`) on the real library, judges them in Coq and moves to
     the smallest one that still has the same code (and satisfies `keep`).  Stops when no variant
@@ -121,7 +123,7 @@ def minimise(ctx, binp, header, case_type, judge, inp, code, variants, size, rou
                 return best, best_case
             chunk = cands[off:off + cap]
             n += 1
-            terms, jsons, err = replay_inputs(ctx, binp, chunk, "%s%d" % (tag, n))
+            terms, jsons, err = replay_inputs(ctx, binp, chunk, "%s%d" % (tag, n), extra_args=replay_args)
             if err or len(terms) != len(chunk):
                 return best, best_case
             bad, _, err = ctx.judge_cases(header, case_type, judge, terms, shard=30, tag="%s%d" % (tag, n))
@@ -277,6 +279,9 @@ def correspondence(ctx, d, binp, spec):
             _, mj = minimise(ctx, binp, spec["header"], spec["case_type"], spec["judge"], spec["to_input"](j),
                              code, spec["variants"], spec["size"], keep=lambda c: shape(c) == sh,
                              **spec.get("min_kw", {}))
+            ctx.log("minimisation of a %s case: size %s -> %s" % (
+                sh, spec["size"](spec["to_input"](j)),
+                spec["size"](spec["to_input"](mj)) if mj is not None else "no smaller failing input found"))
             if mj is not None:
                 mj["kind"] = j["kind"] + "/minimised"
                 j = mj
@@ -302,3 +307,31 @@ def correspondence(ctx, d, binp, spec):
         for _ in soft[3:]:
             ctx.violations.append("(not written)")
     return terms, jsons, bad, nt, info, widened
+
+
+def count_domain(ctx, header, case_type, terms, jsons, shard, floor=0.9):
+    """How many cases does the judge put inside the property's quantifier?  (The domain predicate is
+    a predicate on the input only: GConfJudge.in_domain.)  Cases generated as in-domain (every kind
+    but `ood`) that the judge puts outside would be scored without gating, so their share must stay
+    under 1 - floor; otherwise the run is reported (no failing input: the generator or the domain
+    predicate drifted)."""
+    out, _, err = ctx.judge_cases(header, case_type, "c03_out_of_domain", terms, shard=shard, tag="domain")
+    if err:
+        ctx.cov["in_domain"] = {"error": err[-300:]}
+        return
+    outside = {i for i, _ in out}
+    gen_in = [i for i, j in enumerate(jsons) if j["kind"].split("/")[0] != "ood"]
+    lost = [i for i in gen_in if i in outside]
+    ctx.cov["in_domain"] = {
+        "judged_inside_the_quantifier": len(jsons) - len(outside),
+        "judged_outside (compared with the model only, never gating)": len(outside),
+        "generated_as_in_domain": len(gen_in),
+        "generated_as_in_domain_but_judged_outside": len(lost),
+        "floor": floor,
+        "predicate": "GConfJudge.in_domain: dimension values parse (default/env/flag), wfb (= WF, decided) holds of the document, root is a map",
+    }
+    if gen_in and len(gen_in) - len(lost) < floor * len(gen_in):
+        ctx.report({"unchecked": "coverage floor: %d of %d cases generated inside the quantifier were judged outside it"
+                                 % (len(lost), len(gen_in)),
+                    "samples": [jsons[i].get("yaml", "")[:300] for i in lost[:3]]},
+                   {"kind": "coverage"}, failing_input=False)
